@@ -16,6 +16,7 @@ CONSTANTS
   YieldK <- K_None
   TerminalQueries = TRUE
   AllowEmpty = TRUE
+  AddForms <- F_None
 
 INVARIANT WorkspaceWellFormed
 INVARIANT SplitPartitions
